@@ -500,6 +500,78 @@ func runC16(c *ctx) {
 			c16Item(c, c16Case{Source: "same-ellipsis-name-twice"}, node, nil)
 		}
 	}
+	// a variable with 60..300 lists around it (round 10): listed by every enclosing list and by the message, in printed
+	// order with the names beside it, and a duplicate that deep is a duplicate
+	for _, depth := range []int{60, 63, 64, 65, 66, 67, 100, 127, 128, 129, 200, 255, 256, 257, 300} {
+		for _, k := range []ref.Kind{ref.L, ref.U1, ref.A, ref.B, ref.BOOLEAN, ref.F8, ref.I4} {
+			var bottom *ref.Item
+			switch k {
+			case ref.L:
+				bottom = &ref.Item{Var: "deep"}
+			case ref.A:
+				bottom = &ref.Item{Kind: ref.A, AVar: "deep", AMin: 0, AMax: -1}
+			default:
+				bottom = &ref.Item{Kind: k, Slots: []ref.Slot{{}, {Var: "deep"}}}
+			}
+			it := bottom
+			for d := 0; d < depth; d++ {
+				kids := []*ref.Item{it}
+				if d%16 == 7 {
+					kids = append([]*ref.Item{{Kind: ref.U2, Slots: []ref.Slot{{Var: fmt.Sprintf("left%d", d)}}}}, kids...)
+				}
+				if d%32 == 9 || d == depth-1 {
+					kids = append(kids, &ref.Item{Var: fmt.Sprintf("right%d", d)})
+				}
+				it = &ref.Item{Kind: ref.L, Children: kids}
+			}
+			c.Class("variable-under-60-to-300-lists")
+			c16Eval(c, c16Case{Source: "direct", Item: it})
+			m := gen.New(c.rnd.Derive(uint64(1600+depth)), gen.Profile{}).Msg(it, false)
+			c16Eval(c, c16Case{Source: "message", Msg: m})
+			// the same name once more at the top: refused, or at least not listed twice
+			var dup ast.ItemNode
+			if o := real.Try(func() { dup = ast.NewListNode(real.Build(it), ast.NewUintNode(1, "deep")) }); !o.Panicked {
+				c.Violation("C16/duplicate-name-accepted/deep", fmt.Sprintf("a list holding the variable %q under %d lists and again beside them was constructed; Variables() lists %d names", "deep", depth, len(dup.Variables())), c16Case{Source: "deep-duplicate", Text: fmt.Sprint(depth, " ", k)})
+			}
+		}
+	}
+	// the same refusal asked for thousands of times (round 10): a list whose first and last names are equal, with fresh
+	// names in between every time, is refused the first time and the 12,000th time alike - whatever the duplicate
+	// check keeps between constructions
+	{
+		r := c.rnd.Derive(1616)
+		reps := c.pick(12000, 120000)
+		accepted := 0
+		for rep := 0; rep < reps && accepted < 3; rep++ {
+			k := 2 + r.Intn(60)
+			args := make([]interface{}, 0, k+1)
+			first := fmt.Sprintf("d%d_0", rep)
+			for i := 0; i < k; i++ {
+				name := fmt.Sprintf("d%d_%d", rep, i)
+				switch (rep + i) % 3 {
+				case 0:
+					args = append(args, name)
+				case 1:
+					args = append(args, ast.NewUintNode(1, name))
+				default:
+					args = append(args, ast.NewListNode(ast.NewBinaryNode(name)))
+				}
+			}
+			if rep%2 == 0 {
+				args = append(args, ast.NewListNode(ast.NewIntNode(2, first)))
+			} else {
+				args = append(args, first)
+			}
+			var node ast.ItemNode
+			o := real.Try(func() { node = ast.NewListNode(args...) })
+			c.NoteBulk(1, 1)
+			c.Class("duplicate-refused-again-and-again")
+			if !o.Panicked {
+				accepted++
+				c.Violation("C16/duplicate-name-accepted/repetition", fmt.Sprintf("repetition %d: a list of %d named elements whose last element repeats the first name %q was constructed; Variables() = %q", rep, k+1, first, clipS(fmt.Sprint(node.Variables()))), c16Case{Source: "repeated-duplicate", Text: fmt.Sprint(rep)})
+			}
+		}
+	}
 	// whatever the factories let through has no variables and therefore must encode (also just beyond the size limit,
 	// where the factory is expected to refuse)
 	for _, k := range []ref.Kind{ref.F4, ref.F8, ref.I8, ref.U4, ref.I2} {
@@ -515,7 +587,7 @@ func runC16(c *ctx) {
 			}
 		}
 	}
-	c.Required = []string{"item-just-beyond-the-limit", "shared-sub-list", "same-ellipsis-name-twice", "wide-item-with-variables", "first-listing-asked-by-several-goroutines", "list-longer-than-any-item", "n-variables-in-one-node", "rename-refused", "rename-accepted", "object/direct", "object/expanded", "object/message", "object/derived", "object/parsed", "variable-free", "with-variables"}
+	c.Required = []string{"variable-under-60-to-300-lists", "duplicate-refused-again-and-again", "item-just-beyond-the-limit", "shared-sub-list", "same-ellipsis-name-twice", "wide-item-with-variables", "first-listing-asked-by-several-goroutines", "list-longer-than-any-item", "n-variables-in-one-node", "rename-refused", "rename-accepted", "object/direct", "object/expanded", "object/message", "object/derived", "object/parsed", "variable-free", "with-variables"}
 }
 
 func replayC16(c *ctx, raw json.RawMessage) {
